@@ -677,5 +677,6 @@ FaultLeavesState == \A r \in Fallible : \A f \in Faulted(r) : f = r \/ (f.new = 
 StateOutOf(n) == [cifs |-> n.cifs, cont |-> n.cont, loops |-> n.loops, vals |-> n.vals, tx |-> [c \in CIFS |-> n.itr[c] # NoneH]]
 \* everything the replay needs to enumerate the variants in a state: each enabled call with the state it leads to
 EmitFault == PrintT(<<"FSTATE", ToJson([h |-> hist, s |-> StateOut,
+                                        hcid |-> [x \in DOMAIN hc |-> IF hc[x] = NoneH THEN 0 ELSE hc[x].id],
                                         calls |-> {[e |-> r.e, s2 |-> StateOutOf(r.new), same |-> r.new = Cur] : r \in Fallible}])>>)
 =============================================================================
